@@ -145,6 +145,13 @@ pub fn menu() -> Vec<(&'static str, &'static str, usize, char)> {
         ("S2", "P(P(S,L0),L1)", 2, 's'),
         ("S3", "P(S,P(L0,L1))", 2, 's'),
         ("S4", "P(U(S),L0)", 1, 's'),
+        // the same nestings built with `Default::default()` instead of `Pipe::new` (all stages are zero-sized `Default`s)
+        ("F2d", "P(P(L0,L1),L2)", 3, 'f'),
+        ("K2d", "P(P(L0,L1),K)", 2, 'k'),
+        ("S1d", "P(S,L0)", 1, 's'),
+        ("S2d", "P(P(S,L0),L1)", 2, 's'),
+        ("S4d", "P(U(S),L0)", 1, 's'),
+        ("X2d", "P(P(S,L0),L1)", 2, 'x'),
         ("X1", "P(S,L0)", 1, 'x'),
         ("X2", "P(P(S,L0),L1)", 2, 'x'),
         ("X3", "P(S,P(L0,L1))", 2, 'x'),
@@ -198,6 +205,12 @@ pub fn build(name: &str) -> ZPipe {
         "S2" => ZPipe::S2(Pipe::new(Pipe::new(ZSrc, ZAff), ZAff)),
         "S3" => ZPipe::S3(Pipe::new(ZSrc, Pipe::new(ZAff, ZAff))),
         "S4" => ZPipe::S4(Pipe::new(UnitPipe::new(ZSrc), ZAff)),
+        "F2d" => ZPipe::F2(Default::default()),
+        "K2d" => ZPipe::K2(Some(Default::default())),
+        "S1d" => ZPipe::S1(Default::default()),
+        "S2d" => ZPipe::S2(Default::default()),
+        "S4d" => ZPipe::S4(Default::default()),
+        "X2d" => ZPipe::X2(Some(Default::default())),
         "X1" => ZPipe::X1(Some(Pipe::new(ZSrc, ZSum))),
         "X2" => ZPipe::X2(Some(Pipe::new(Pipe::new(ZSrc, ZAff), ZSum))),
         "X3" => ZPipe::X3(Some(Pipe::new(ZSrc, Pipe::new(ZAff, ZSum)))),
